@@ -191,15 +191,26 @@ fn same_glyph(a: &Glyph, b: &Glyph) -> bool {
     norm(a) == norm(b)
 }
 
-struct Encoded {
-    bytes: Vec<u8>,
-    desc: String,
-    glyf_transformed: bool,
-    hmtx_transformed: bool,
-    elide: (bool, bool),
+pub(crate) struct Encoded {
+    pub(crate) bytes: Vec<u8>,
+    pub(crate) desc: String,
+    pub(crate) glyf_transformed: bool,
+    pub(crate) hmtx_transformed: bool,
+    pub(crate) elide: (bool, bool),
 }
 
-fn encode(font: &TtFont, rng: &mut Rng, cx: &mut Ctx) -> Encoded {
+pub(crate) fn encode(font: &TtFont, rng: &mut Rng, cx: &mut Ctx) -> Encoded {
+    let (tables, mut e) = encode_tables(font, rng, cx);
+    let chunk = *rng.pick(&[65536usize, 65536, 1000, 17, 4096]);
+    let with_meta = rng.chance(1, 5);
+    e.bytes = w2::build_woff2(font.flavor, &tables, None, chunk, rng, with_meta);
+    e.desc = format!("{} tables={} chunk={}", e.desc, tables.len(), chunk);
+    e
+}
+
+/// The WOFF2 table list (transformed payloads, directory attributes) for `font` with random encoder
+/// choices; `Encoded::bytes` is left empty. Also used by C01 to inject faults before wrapping.
+pub(crate) fn encode_tables(font: &TtFont, rng: &mut Rng, cx: &mut Ctx) -> (Vec<W2Table>, Encoded) {
     let glyf_t = rng.chance(3, 4);
     let enc = EncChoice::random(rng);
     let records: Vec<Vec<u8>> = font
@@ -261,16 +272,14 @@ fn encode(font: &TtFont, rng: &mut Rng, cx: &mut Ctx) -> Encoded {
     for f in classes {
         cx.class(&format!("triplet-flag:{:03}", f));
     }
-    let chunk = *rng.pick(&[65536usize, 65536, 1000, 17, 4096]);
-    let with_meta = rng.chance(1, 5);
-    let bytes = w2::build_woff2(font.flavor, &tables, None, chunk, rng, with_meta);
-    Encoded {
-        bytes,
-        desc: format!("glyf_transformed={} hmtx_transformed={} elide={:?} loca_long={} tables={} chunk={}", glyf_t, hmtx_t, elide, long, tables.len(), chunk),
+    let e = Encoded {
+        bytes: Vec::new(),
+        desc: format!("glyf_transformed={} hmtx_transformed={} elide={:?} loca_long={}", glyf_t, hmtx_t, elide, long),
         glyf_transformed: glyf_t,
         hmtx_transformed: hmtx_t,
         elide,
-    }
+    };
+    (tables, e)
 }
 
 fn compare<P: FontTableProvider + SfntVersion>(cx: &mut Ctx, font: &TtFont, p: &P, enc_desc: &str, woff2: &[u8]) -> bool {
